@@ -442,12 +442,21 @@ impl<B: Body> RequestBuilder<B> {
         let headers = &mut prepped.headers;
 
         header_insert(headers, CONNECTION, "close")?;
+        // The framing header fields describe the body that is actually written: values supplied
+        // by the caller must not contradict it.
         match prepped.body.kind()? {
-            BodyKind::Empty => (),
+            BodyKind::Empty => {
+                headers.remove(TRANSFER_ENCODING);
+                if headers.contains_key(CONTENT_LENGTH) {
+                    header_insert(headers, CONTENT_LENGTH, 0)?;
+                }
+            }
             BodyKind::KnownLength(len) => {
+                headers.remove(TRANSFER_ENCODING);
                 header_insert(headers, CONTENT_LENGTH, len)?;
             }
             BodyKind::Chunked => {
+                headers.remove(CONTENT_LENGTH);
                 header_insert(headers, TRANSFER_ENCODING, "chunked")?;
             }
         }
